@@ -81,3 +81,66 @@ package schemabuilder
 //@   assume funcCtx.hasError ==> len(out) >= (ite(funcCtx.hasRet, 2, 1))
 //@   ensures err == nil && (retType is *graphql.NonNull) ==> !(reflectKind(reflectValueOf(result)) == 22 && reflectIsNil(reflectValueOf(result)))
 //@   ensures err == nil && !funcCtx.hasRet ==> result == any(true)
+
+// ---- C14 / C01 (batch variant): one result per source, in source order; with NonNullable enforced, every slot of a
+// successful result was filled from a valid, non-nil-pointer map entry (a missing entry or a nil pointer is an error).
+//@ func batchFuncContext.extractResultsAndErr
+//@   requires funcCtx != nil
+//@   assume funcCtx.hasRet ==> len(out) >= 1
+//@   assume funcCtx.hasError ==> len(out) >= 1
+//@   ghost okk map[int]bool
+//@   call Value.Interface#2 assert reflectIsValid(res) && !(reflectKind(res) == 22 && reflectIsNil(res))
+//@   call Value.Interface#2 ghost okk[idx] = true
+//@   ensures err == nil ==> len(result) == len(idxValues)
+//@   ensures err == nil && funcCtx.hasRet && funcCtx.enforceNoNilResps ==> forall k int :: 0 <= k && k < len(idxValues) ==> okk[k]
+//@   loop 1 invariant 0 <= i && i <= len(idxValues) && len(res) == len(idxValues) && fresh(res)
+//@   loop 2 invariant -1 <= rangeindex && rangeindex < len(idxValues) && len(resList) == len(idxValues) && fresh(resList)
+//@   loop 2 invariant funcCtx.enforceNoNilResps ==> forall k int :: 0 <= k && k <= rangeindex ==> okk[k]
+
+// ---- C18: values of the wrong kind are rejected before any resolver runs. Each static scalar parser accepts exactly
+// the JSON kind of its type (numbers arrive as float64 from literals and from variables alike, see graphql.valueToJson)
+// and converts the accepted value itself, nothing else, into the destination.
+//@ func init$1
+//@   ensures err == nil ==> (value is bool)
+//@ func init$2
+//@   ensures err == nil ==> (value is float64)
+//@ func init$3
+//@   ensures err == nil ==> (value is float64)
+//@ func init$4
+//@   ensures err == nil ==> (value is float64)
+//@ func init$5
+//@   ensures err == nil ==> (value is float64)
+//@ func init$6
+//@   ensures err == nil ==> (value is float64)
+//@ func init$7
+//@   ensures err == nil ==> (value is float64)
+//@ func init$8
+//@   ensures err == nil ==> (value is float64)
+//@ func init$9
+//@   ensures err == nil ==> (value is float64)
+//@ func init$10
+//@   ensures err == nil ==> (value is float64)
+//@ func init$11
+//@   ensures err == nil ==> (value is float64)
+//@ func init$12
+//@   ensures err == nil ==> (value is float64)
+//@ func init$13
+//@   ensures err == nil ==> (value is float64)
+//@ func init$14
+//@   ensures err == nil ==> (value is string)
+//@ func init$15
+//@   ensures err == nil ==> (value is string)
+//@ func init$16
+//@   ensures err == nil ==> (value is string)
+
+// a list argument accepts exactly a JSON list (a missing or null value is not a list) and parses every element, in order,
+// with the element parser into the slot of the same index
+//@ func schemaBuilder.makeSliceParser$1
+//@   assume deref(inner) != nil              // captured: makeSliceParser returns before building the closure when makeArgParser failed
+//@   ensures err == nil ==> (value is []interface{})
+//@   ghost parsed map[int]bool
+//@   call dynamic assert arg0 == asSlice[i]
+//@   call dynamic ghost parsed[i] = true
+//@   call Value.Index assert arg1 == i
+//@   loop 1 invariant -1 <= rangeindex && rangeindex < len(asSlice) && (forall k int :: 0 <= k && k <= rangeindex ==> parsed[k])
+//@   ensures err == nil ==> forall k int :: 0 <= k && k < len(value.([]interface{})) ==> parsed[k]
